@@ -45,7 +45,8 @@ def required_cells(tier):
             "chain-site:last": 2, "record_all:False": 5,
             "control:extended-after-use": 4,
             "chain:interleaved-additions": 3, "kind:weak": 3,
-            "chain:weak-control": 3, "post-flag:numpy.bool_": 5,
+            "chain:weak-control": 3, "route:gradient": 5,
+            "route:meanfield": 3, "post-flag:numpy.bool_": 5,
             "post-flag:int": 5}
 
 
@@ -157,6 +158,70 @@ def run_single(case):
                         f"differs from the stated semantics by {errs[k]:.3e} "
                         f"first at recorded step {k}",
                 "mechanism": mech, "detail": {"errs": errs, "alt": alt}})
+    # the other routines that take a Control follow the same rules: the
+    # forward pass of the gradient computation and the mean-field routine
+    # (two field-independent systems, each with its own control schedule)
+    extra_routes = []
+    if not violations and not sysd["td"] and pts and i % 2 == 0:
+        h0, g0, a0 = sysd["h0"], sysd["g0"], sysd["a0"]
+        psys = oqupy.ParameterizedSystem(
+            lambda x: h0 + 0.0 * x,
+            [(lambda x, g=g: g + 0.0 * x) for g in g0],
+            [(lambda x, a=a: a + 0.0 * x) for a in a0])
+        _, gdyn = oqupy.compute_gradient_and_dynamics(
+            psys, rho0, np.eye(d, dtype=complex), pts,
+            np.zeros((2 * nsteps, 1)), control=ctrl, start_time=start,
+            progress_type="silent")
+        gs = np.array(gdyn.states)
+        eg = float(np.abs(gs - ref).max()) if gs.shape == ref.shape \
+            else float("inf")
+        extra_routes.append("gradient")
+        err = max(err, eg)
+        if not eg <= 1e-9:
+            kbad = int(np.argmax(np.abs(gs - ref).max(axis=(1, 2)) > 1e-9)) \
+                if gs.shape == ref.shape else -1
+            violations.append({
+                "what": f"compute_gradient_and_dynamics (forward dynamics) "
+                        f"with {stack} {kinds} control(s) at step {step} of "
+                        f"{nsteps} ({'post' if post else 'pre'}, {spec}) "
+                        f"differs from the stated semantics by {eg:.3e} "
+                        f"first at recorded step {kbad}",
+                "mechanism": "control-semantics:gradient", "detail": {}})
+    if not violations and not sysd["td"] and len(pts) == 1 and i % 4 == 1:
+        h0, g0, a0 = sysd["h0"], sysd["g0"], sysd["a0"]
+
+        def fsys():
+            return oqupy.TimeDependentSystemWithField(
+                lambda t, a: h0, [(lambda t, g=g: g) for g in g0],
+                [(lambda t, a=a: a) for a in a0])
+        mfs = oqupy.MeanFieldSystem([fsys(), fsys()],
+                                    field_eom=lambda t, states, a: 0.0)
+        # the second system: another control at another step
+        stepb = (step + 1) % (nsteps + 1)
+        postb = bool(i % 8 == 1) and stepb < nsteps
+        supb = scen.random_superop(rng, d, "unitary")
+        ctrlb = oqupy.Control(d)
+        ctrlb.add_single(int(stepb), supb, post=postb)
+        mdyn = oqupy.compute_dynamics_with_field(
+            mfs, 0.1 + 0.2j, process_tensor_list=[pts[0], pts[0]],
+            initial_state_list=[rho0, rho0], control_list=[ctrl, ctrlb],
+            start_time=start, progress_type="silent")
+        prb, pob = ({}, {stepb: [supb]}) if postb else ({stepb: [supb]}, {})
+        refb = ancilla.dense_dynamics(d, envs, rho0, nsteps, hp, prb, pob)
+        extra_routes.append("meanfield")
+        for which, r_ in ((0, ref), (1, refb)):
+            ms = np.array(mdyn.system_dynamics[which].states)
+            em = float(np.abs(ms - r_).max()) if ms.shape == r_.shape \
+                else float("inf")
+            err = max(err, em)
+            if not em <= 1e-9:
+                violations.append({
+                    "what": f"compute_dynamics_with_field: system {which} of "
+                            f"two (each with its own control list) differs "
+                            f"from the stated semantics of ITS controls by "
+                            f"{em:.3e}",
+                    "mechanism": "control-semantics:meanfield",
+                    "detail": {}})
     # record_all=False: the single returned state is the final one of the
     # full run (controls act whether or not intermediate states are recorded)
     if not violations and i % 3 == 1:
@@ -210,6 +275,7 @@ def run_single(case):
     if step == nsteps:
         cells.append("step:last")
     cells += extra_cells
+    cells += ["route:" + r for r in extra_routes]
     cells.append("post-flag:" + flag_kind)
     if i % 3 == 1:
         cells.append("record_all:False")
